@@ -262,6 +262,21 @@ def runVoteRaises (cfg : Cfg) (voters : List Voter) : Bool :=
   decide (voters.length = 0) && decide (cfg.strategy = .threshold) &&
     !decide (activeCount (collect voters) < cfg.minVoters)
 
+/-- `_threshold_vote` as the code runs it: its last step `threshold / len(self.colony)` raises on an empty colony -/
+def thresholdVoteE (cfg : Cfg) (colony : Nat) (vs : List Vote) : Option Result :=
+  if colony = 0 then none else some (thresholdVote cfg colony vs)
+
+/-- `_aggregate_votes` with that exception (`none` = `ZeroDivisionError`): the gate returns before any strategy runs -/
+def aggregateE (cfg : Cfg) (colony : Nat) (vs : List Vote) : Option Result :=
+  if activeCount vs < cfg.minVoters then some (gateResult vs)
+  else
+    match cfg.strategy with
+    | .threshold => thresholdVoteE cfg colony vs
+    | _ => some (aggregate cfg colony vs)
+
+/-- `run_vote` with its one exception; `runVoteRaises` / `runVote` above are its two halves (`runVoteE_eq`) -/
+def runVoteE (cfg : Cfg) (voters : List Voter) : Option Result := aggregateE cfg voters.length (collect voters)
+
 /-! ### The colony: registration, weights, reliability bookkeeping
 
 `run_vote` polls `self.colony` by position: one ballot per colony member, whatever the members are called.
